@@ -24,6 +24,7 @@ import asyncio
 import math
 import sys
 
+from harness import fresh_c03
 from harness.core import Broken, Failure, Prop
 
 REASONS = {
@@ -130,8 +131,19 @@ class C03(Prop):
         self._driver = None
         self.regs = {}
         self.ports_ready = False
+        # the own dependencies of every function class as they are when the process starts, before anything is parsed
+        # (DEPS may be None / empty for "none"); what a class attribute holds later is not the registry
+        self.own_deps = {name: frozenset(cls.DEPS or ()) for name, cls in functions.FUNCTIONS.items()}
+        self.unreproduced = 0       # failures seen in this (long-lived) process that a fresh process does not show
+        self.state_suspect = False  # a sequence of parses has been seen to change what later parses give
+        # a pristine copy of this process (nothing parsed yet): observations "from a fresh process" at the price of a fork
+        self.pristine = fresh_c03.Zygote(self)
 
     def teardown(self):
+        try:
+            self.pristine.close()
+        except Exception:
+            pass
         try:
             self.loop.close()
         except Exception:
@@ -173,7 +185,7 @@ class C03(Prop):
                         raise Broken(f'ARG_KINDS of {name} names a specific function class: not representable')
                 kinds.append([any(issubclass(c, kk) for kk in ks) for c in classes])
             entries.append({'name': name, 'canon': cls.NAME, 'enabled': enabled, 'min': cls.MIN_ARGS,
-                            'max': cls.MAX_ARGS, 'kinds': kinds, 'deps': sorted(cls.DEPS)})
+                            'max': cls.MAX_ARGS, 'kinds': kinds, 'deps': sorted(self.own_deps.get(name, ()))})
         return entries
 
     def _enabled_diagnostics(self):
@@ -282,6 +294,20 @@ class C03(Prop):
             for h, off in ((1, 'hs'), (0, 'hs'), (0, 'drv')):
                 c.append({'kind': 'seq', 'self': ('me', 'p1', 'a')[i % 3], 'hist': h, 'off': off, 'steps': steps,
                           'restart': True, 'origin': 'corpus'})
+        # several expressions accepted in one process (several ports), sharing function classes that have own
+        # dependencies; the earlier ones read ports: the dependencies of each are those of its own tree, and stay so
+        M = lambda pid, t, role=1: {'self': pid, 'text': t, 'role': role, 'expect': None}  # noqa
+        multis = [
+            [M('p1', 'ADD($a, 1)'), M('p2', ' DELAY( $a ,1000 )'), M('p3', 'DELAY(MUL($b, 2), 500)'),
+             M('p4', 'IF(GT(HOUR($ts), 12), $c, 0)'), M('p5', 'MINUTE()'), M('p6', 'SAMPLE($, 100)'), M('p7', 'ADD(TIME(), 1)')],
+            [M('p1', 'DELAY($a, 1000)'), M('p2', 'DELAY(2, 3)')],
+            [M('p1', 'HOUR($ts)'), M('p2', 'MINUTE()'), M('p3', 'YEAR($x)', 2)],
+            [M('p1', 'HELD($a, 1, 10)'), M('p2', 'HELD($b, 1, 10)', 3), M('p1', 'HELD($, 0, 5)', 4)],
+            [M('me', 'SAMPLE($, 100)'), M('p1', 'SAMPLE($, 100)'), M('a', 'ADD(SAMPLE($p1, 5), TIME())')],
+            [M('p1', 'ADD($a, $b)'), M('p2', 'ADD($c, 1)'), M('p3', 'MUL(2, 3)')],
+        ]
+        for items in multis:
+            c.append({'kind': 'multi', 'hist': 1, 'off': 'hs', 'items': items, 'origin': 'corpus'})
         c.append({'kind': 'litbatch', 'seed': 1, 'n': 2000})
         return c
 
@@ -519,6 +545,8 @@ class C03(Prop):
         depth = rng.choice([0, 1, 1, 2, 2, 3, maxd])
         if r < 0.035:
             return self._gen_seq(rng, slot, base)
+        if r < 0.075:
+            return self._gen_multi(rng, slot, base)
         if r < 0.05 and slot == 0:
             c = self._gen_disabled(rng, depth, base)
             if c is not None:
@@ -683,6 +711,22 @@ class C03(Prop):
                     if s['op'] == 'set' and len(s['text']) <= 60:
                         for t in self._shrink_text(s['text']):
                             yield {**base, 'steps': steps[:i] + [{'op': 'set', 'text': t}] + steps[i + 1:]}
+            return
+        if case.get('kind') == 'multi':
+            items = [{**it, 'expect': None} for it in case['items']]
+            base = {**case, 'origin': 'shrunk'}
+            for i in range(len(items) - 1, -1, -1):
+                if len(items) > 1:
+                    yield {**base, 'items': items[:i] + items[i + 1:]}
+            if len(items) <= 3:
+                for i, it in enumerate(items):
+                    if it['text'] != it['text'].strip():
+                        yield {**base, 'items': items[:i] + [{**it, 'text': it['text'].strip()}] + items[i + 1:]}
+                    if len(it['text']) <= 80:
+                        for t in self._shrink_text(it['text']):
+                            yield {**base, 'items': items[:i] + [{**it, 'text': t}] + items[i + 1:]}
+                    if it['self'] != 'p' + str(i + 1):
+                        yield {**base, 'items': items[:i] + [{**it, 'self': 'p' + str(i + 1)}] + items[i + 1:]}
             return
         if case.get('kind') != 'text':
             return
@@ -974,6 +1018,177 @@ class C03(Prop):
         tags.append(f'seq-len:{len(case["steps"])}')
         return fail, tags
 
+    # ------------------------------------------------------------------------------------------ sequences of expressions
+    def _fn_names(self, t, out):
+        if t[0] == 'C':
+            out.append(t[1])
+            for a in t[2]:
+                self._fn_names(a, out)
+        return out
+
+    def _observe_multi(self, case):
+        """Real side of a 'multi' case: the texts are parsed one after the other in this process (as when several ports
+        get their expressions); once all are in, the canonical text of every accepted one is parsed again (port enable /
+        hub restart re-parse the stored text) and the accepted expression object is looked at again."""
+        self._configure(case['hist'], case.get('off', 'hs'))
+        acc = [self._real_parse(it['self'], it['text'], it['role']) for it in case['items']]
+        obs = []
+        for it, (r, e) in zip(case['items'], acc):
+            o = {'first': r}
+            if r['st'] == 'ok':
+                o['again'] = self._real_parse(it['self'], r['print'], it['role'])[0]
+                o['now'] = self._obs(e)
+            obs.append(o)
+        return obs
+
+    def _judge_multi(self, case, obs, driver):
+        """Oracle of a 'multi' case on observations `obs` -> Failure | None."""
+        slot = case['hist']
+        items = case['items']
+        texts = [it['text'] for it in items]
+        models = []
+
+        def F(kind, i, msg, **kw):
+            return Failure(kind, f'expressions accepted one after the other in one process {texts!r}: #{i + 1} '
+                           f'{items[i]["text"]!r} (port {items[i]["self"]}): {msg}', real=obs, **kw)
+
+        for i, (it, o) in enumerate(zip(items, obs)):
+            r = o['first']
+            model = self._model_parse(driver, slot, it['self'], it['text'])
+            models.append(model)
+            if r['st'] == 'crash':
+                return F('property', i, f'parse raises {r["cls"]}: {r["msg"]} (not an ExpressionParseError)', model=model)
+            if r['st'] != model['st']:
+                return F('property', i, f'code {"accepts" if r["st"] == "ok" else "rejects"} but the text is '
+                         f'{"" if model["st"] == "ok" else "not "}derivable from the grammar ({self._conf_text(case)})',
+                         model=model)
+            if r['st'] != 'ok':
+                continue
+            if r['tree'] != model['tree']:
+                return F('property', i, f'the accepted expression is {r["tree"]}, the grammar gives {model["tree"]}',
+                         model=model)
+            exp = it.get('expect')
+            if exp is not None and r['tree'] != exp:
+                return F('property', i, f'text derived from the grammar parses to {r["tree"]} instead of {exp}')
+        # (a) the canonical text parses again to the same expression: same print, structure, dependencies, values as
+        #     when the expression was accepted -- whatever else was accepted meanwhile
+        for i, (it, o) in enumerate(zip(items, obs)):
+            r = o['first']
+            if r['st'] != 'ok':
+                continue
+            r2 = o['again']
+            if r2['st'] != 'ok':
+                return F('property', i, f'its canonical text {r["print"]!r} does not parse again: {r2}')
+            for what in ('print', 'tree', 'deps', 'vals'):
+                if r2[what] != r[what]:
+                    return F('property', i, f'{what} of the canonical text {r["print"]!r} parsed again (after all the '
+                             f'texts were accepted): {r2[what]}; the accepted expression had {r[what]}')
+            for what in ('print', 'tree', 'deps', 'vals'):
+                if o['now'][what] != r[what]:
+                    return F('property', i, f'{what} of the accepted expression itself became {o["now"][what]} after the '
+                             f'other texts were accepted (was {r[what]} when it was accepted)')
+        # (b) the dependencies are those of the expression's own tree (model: Parse.deps, a function of the tree, the
+        #     self id and the registry; theorems deps_depend_only_on_tree, reparse_same_deps_in_history)
+        for i, (it, o) in enumerate(zip(items, obs)):
+            r = o['first']
+            if r['st'] != 'ok':
+                continue
+            model = models[i]
+            if r['deps'] != model['deps']:
+                # what a hub that has parsed nothing else (restart) gets for the stored text
+                alone = self.pristine.observe({**case, 'items': [{**it, 'text': r['print'], 'expect': None}]})[0]
+                a = alone['first']
+                if a['st'] != 'ok' or a['deps'] != r['deps']:
+                    return F('property', i, f'accepted with dependencies {r["deps"]}; its canonical text {r["print"]!r} '
+                             f'parsed by a process that has parsed nothing else (restart) has '
+                             f'{a.get("deps", a)}; its own tree gives {model["deps"]}', model=model)
+                return F('correspondence', i, f'dependencies {r["deps"]}, the model gives {model["deps"]}', model=model)
+            if r['print'] != model['print']:
+                return F('correspondence', i, f'printed {r["print"]!r}, the model prints {model["print"]!r}', model=model)
+        return None
+
+    def _run_multi(self, case, driver):
+        items = case['items']
+        if any(0xD800 <= ord(c) <= 0xDFFF for it in items for c in it['text']):
+            return None, {'tags': ['skipped-surrogate'], 'key': None}
+        tags = ['origin:multi', f'multi-len:{len(items)}', f'hist:{case["hist"]}']
+        fail = None
+        if not self.state_suspect:
+            obs = self._observe_multi(case)
+            fail = self._judge_multi(case, obs, driver)
+        if fail is not None or self.state_suspect:
+            # does the sequence ALONE show it (a process that has parsed nothing else, as --replay)? state left in this
+            # process by earlier cases does not count for this case
+            self.state_suspect = True
+            obs = self.pristine.observe(case)
+            was = fail
+            fail = self._judge_multi(case, obs, driver)
+            if fail is None and was is not None:
+                self.unreproduced += 1
+                tags.append('not-reproduced-in-a-fresh-process')
+        trees = [o['first']['tree'] for o in obs if o['first']['st'] == 'ok']
+        tags.append(f'multi-accepted:{len(trees)}')
+        timed = [{n for n in self._fn_names(t, []) if self.own_deps.get(n)} for t in trees]
+        shared = any(timed[i] & timed[j] for i in range(len(timed)) for j in range(i))
+        if shared:
+            tags.append('multi:shares-a-time-function')
+        return fail, {'tags': tags, 'key': 'multi|' + repr([(it['self'], it['text']) for it in items]) if shared else None,
+                      'observed': None}
+
+    def _gen_multi(self, rng, slot, base):
+        """2-6 accepted expressions for several ports; most of them call the same function with own dependencies (or
+        another one of those), the earlier ones with port references among the arguments."""
+        reg = [e for e in self.regs[slot] if e['enabled'] and e['canon'] == e['name']]
+        timed = [e for e in reg if e['deps']]
+        focus = rng.choice(timed) if timed else None
+        items = []
+        for _ in range(rng.choice([2, 2, 3, 3, 4, 5, 6])):
+            r = rng.random()
+            if focus is None or r < 0.2:
+                t = self._tree(rng, slot, rng.choice([1, 2, 2, 3]), [False] * 5 + [True])
+            else:
+                f = focus if r < 0.75 else rng.choice(timed)
+                lo = f['min'] or 0
+                hi = f['max'] if f['max'] is not None else lo + rng.choice([0, 1, 2])
+                args = []
+                for i in range(rng.randint(lo, max(lo, hi))):
+                    k = f['kinds'][i] if i < len(f['kinds']) else self.DEFAULT_KIND
+                    if k[1] and rng.random() < 0.6:
+                        a = ['V', self._ident(rng)]
+                        if k[5] and rng.random() < 0.4:
+                            g = rng.choice([e for e in reg if (e['min'] or 0) <= 2 and (e['max'] is None or e['max'] >= 2)
+                                            and not e['kinds'] and not e['deps']] or [None])
+                            if g is not None:
+                                a = ['C', g['name'], [a, ['L', self._literal(rng)]]]
+                    else:
+                        a = self._tree(rng, slot, rng.choice([0, 0, 1]), k)
+                    args.append(a)
+                t = ['C', f['name'], args]
+                if rng.random() < 0.3:
+                    outer = self._tree(rng, slot, rng.choice([1, 2]), [False] * 5 + [True])
+                    spots = []
+
+                    def walk(x):
+                        if x[0] == 'C':
+                            g = next(e for e in self.regs[slot] if e['name'] == x[1])
+                            for i, a in enumerate(x[2]):
+                                k = g['kinds'][i] if i < len(g['kinds']) else self.DEFAULT_KIND
+                                if k[5]:
+                                    spots.append((x, i))
+                                walk(a)
+                    walk(outer)
+                    if spots:
+                        x, i = rng.choice(spots)
+                        x[2][i] = t
+                        t = outer
+            canonical = rng.random() < 0.5
+            text = self._render(rng, t, canonical)
+            if not canonical:
+                text = self._ws(rng) + text + self._ws(rng)
+            items.append({'self': rng.choice(['me', 'p1', 'a', 'x.y-z', 'p2', 'p3']), 'role': rng.randint(1, 4),
+                          'text': text, 'expect': t})
+        return {'kind': 'multi', 'hist': slot, 'off': base['off'], 'items': items, 'origin': 'multi'}
+
     # ------------------------------------------------------------------------------------------ running
     def _tables(self, driver):
         tags = ['tables']
@@ -1032,8 +1247,33 @@ class C03(Prop):
         return None
 
     def run_case(self, case, driver):
+        """A failure counts only if the case shows it when run alone from a fresh process (what --replay does): the
+        expression classes of this long-lived worker may carry state left by earlier cases. On the unchanged tree nothing
+        fails, so no fresh process is ever started. 'multi' cases do their own confirmation (observations only)."""
+        fail, info = self._run_case(case, driver)
+        kind = case.get('kind', 'text')
+        if fail is None or kind not in ('text', 'seq'):
+            return fail, info
+        if kind == 'seq':
+            if self.state_suspect:
+                return None, {'tags': ['dropped:process-state-carried-over'], 'key': None}
+            return fail, info
+        # does a process that has parsed nothing else see this text the same way?
+        import json
+        o = self.pristine.observe({'kind': 'multi', 'hist': case['hist'], 'off': case.get('off', 'hs'), 'items': [
+            {'self': case['self'], 'text': case['text'], 'role': case['role']}]})[0]['first']
+        here = json.loads(json.dumps(info.get('observed'), default=str))
+        if o == here:
+            return fail, info
+        self.state_suspect = True
+        self.unreproduced += 1
+        return None, {'tags': ['not-reproduced-in-a-fresh-process'], 'key': None}
+
+    def _run_case(self, case, driver):
         self._init_driver(driver)
         kind = case.get('kind', 'text')
+        if kind == 'multi':
+            return self._run_multi(case, driver)
         if kind == 'tables':
             return self._tables(driver)
         if kind == 'litbatch':
